@@ -4,6 +4,11 @@ use emmylua_code_analysis::EmmyLuaAnalysis;
 mod export;
 mod json_types;
 
+#[cfg(feature = "verif-hooks")]
+pub use export::export;
+#[cfg(feature = "verif-hooks")]
+pub use json_types::Index;
+
 pub fn generate_json(
     analysis: &EmmyLuaAnalysis,
     output: OutputDestination,
